@@ -54,6 +54,9 @@ def layouts(rng, n, tmpbase):
     for i in range(n):
         env = {'PADDING': 'x' * rng.randint(0, 6000), 'MALLOC_ARENA_MAX': str(rng.choice([1, 2, 8])), 'MALLOC_TOP_PAD_': str(rng.choice([0, 4096, 1 << 20])),
                'MALLOC_PERTURB_': str(rng.randint(1, 255)), 'TMPDIR': os.path.join(tmpbase, 'tmp%d' % (i % 2))}
+        if i == n - 1:
+            # every allocation of 64 bytes or more comes from mmap: addresses of consecutive allocations then run downwards, the order of anything keyed by pointers flips
+            env['MALLOC_MMAP_THRESHOLD_'] = '64'; env['MALLOC_TOP_PAD_'] = '0'
         os.makedirs(env['TMPDIR'], exist_ok=True)
         out.append(env)
     return out
@@ -102,6 +105,9 @@ def binary_part(chk, tbin, scratch, n):
             for env in layouts(rng, 3, os.path.join(scratch, 'bt%d' % k)):
                 e = dict(os.environ); e.update(env)
                 p = subprocess.run([tbin, '-t' + typ, '-i', f], capture_output=True, env=e, timeout=120)
+                if p.returncode != 0 and 'MALLOC_MMAP_THRESHOLD_' in env:
+                    # one mapping per allocation can exhaust vm.max_map_count: the layout is not viable for this document, nothing to compare
+                    chk.add('mmap_layout_not_viable', 1); continue
                 # the tool starts its HTTP server on a fixed port and logs whether that worked: depends on what else runs on the machine, not on the input
                 outs.append(b'\n'.join(l for l in p.stdout.split(b'\n') if not (l.startswith(b'[') and b'HTTP server' in l)))
             cnt += len(outs); chk.count(len(outs))
